@@ -11,7 +11,7 @@ from vf.trees import Tree
 EAEXTS = [(".abstract", "ABSTRACT"), (".keywords", "KEYWORDS"), (".ask", "ASK"), (".3d", "3D")]
 ADMIN = "Unconfigured Pygopherd Admin <pygopherd@nowhere.nowhere>"
 LINE_POOL = ["A plain line", "Second: with colon", "+INFO: 0fake /fake host 70", "+ADMIN:", " leading blank kept",
-             "trailing blanks dropped   ", "Ask: What is your name?", "Note: x", "+VIEWS:", "café ü",
+             "trailing blanks dropped   ", "Ask: What is your name?", "Note: x", "+VIEWS:", "tab\tinside", "café ü",
              "<tag> & entity", "+", "-", "  two leading", "x" * 200]
 
 
@@ -222,7 +222,7 @@ def main() -> int:
              "line, +ADMIN present, +VIEWS = configured MIME type and size//1024, one block per sidecar with exactly "
              "the file's right-stripped lines, ! = the item's blocks in $, + length exact or -2. distinct = (item "
              "kinds, sidecar kinds present, #items)",
-        assumptions=["sidecar files do not end in blank lines, contain no TAB or other control characters and are below 20 KB", "extstrip=none so display names are "
+        assumptions=["sidecar files do not end in blank lines, contain no control characters other than TAB and are below 20 KB", "extstrip=none so display names are "
                      "file names", "directory MIME type may be the Gopher or the Gopher+ menu type"])
 
 
